@@ -299,6 +299,7 @@ def run(ctx):
         ('join(compound)', 2, lambda a, b: etl.join(a, b, key=('x', 'xy'))), ('join(xy)', 2, lambda a, b: etl.join(a, b, key='xy')),
         ('outerjoin(missing)', 2, lambda a, b: etl.outerjoin(a, b, key='x', missing='NA')),
     ], 360 if ctx.thorough() else 90)
+    util.exotic_key_cases(etl, rng, ctx, 'C06', 200 if ctx.thorough() else 50)
 
 def replay(d):
     print('replay case:', d.get('case'))
